@@ -87,14 +87,21 @@ fn split_member_target(
         let mut write = member.clone();
         let mut read = member.clone();
 
-        if let Some((assignation, ident)) = assign_to_temporal(&member.obj, span, ident_provider) {
+        // the evaluation of a computed key can reassign the object when it is an identifier:
+        // `o[(o = other, k)] += s` reads and writes the former `o`
+        let key_has_effects = matches!(&member.prop, MemberProp::Computed(computed)
+            if !(computed.expr.is_ident() || computed.expr.is_this() || computed.expr.is_lit()));
+
+        if let Some((assignation, ident)) =
+            assign_to_temporal(&member.obj, key_has_effects, span, ident_provider)
+        {
             write.obj = Box::new(assignation);
             read.obj = Box::new(ident);
         }
 
         if let MemberProp::Computed(computed) = &member.prop {
             if let Some((assignation, ident)) =
-                assign_to_temporal(&computed.expr, span, ident_provider)
+                assign_to_temporal(&computed.expr, false, span, ident_provider)
             {
                 write.prop = MemberProp::Computed(ComputedPropName {
                     span: computed.span,
@@ -121,10 +128,11 @@ fn split_member_target(
 
 fn assign_to_temporal(
     expr: &Expr,
+    also_identifiers: bool,
     span: &Span,
     ident_provider: &mut dyn IdentProvider,
 ) -> Option<(Expr, Expr)> {
-    if expr.is_ident() || expr.is_this() || expr.is_lit() {
+    if (expr.is_ident() && !also_identifiers) || expr.is_this() || expr.is_lit() {
         return None;
     }
 
